@@ -55,7 +55,7 @@ if os.path.exists(dp):
     for l in open(dp, errors='replace'):
         m = re.match(r'^(C\d\d-[a-z]): (DETECTED[^:]*|MISSED)(.*)$', l.strip())
         if m:
-            rule = re.search(r'\[(C\d\d\.[a-z0-9-]+)\]', m.group(3))
+            rule = re.search(r'\[(C\d\d\.[a-z0-9/-]+)\]', m.group(3))
             det[m.group(1)] = (m.group(2).split(' ')[0], rule.group(1) if rule else '')
 for d in sorted(glob.glob(os.path.join(root, 'seeded', 'C*-*'))):
     name = os.path.basename(d)
